@@ -198,7 +198,13 @@ def run_case(case, ch, workdir):
                 violation(res, "no-termination", sig, f"{val}; {ctx}")
                 break
             if status != "ok":
-                violation(res, "unexpected-error", sig, f"{val['type']}: {val['msg'][:300]}; {ctx}")
+                if worker == "cf" and rerun and is_wf and "retrieve_from_job" in val["msg"] and "_resolve_lazy_inputs" in val["msg"]:
+                    # a node of a workflow re-run on the asynchronous path was started while the
+                    # job producing its input was being re-executed: the polling loop had judged
+                    # that producer 'done' from the result of the EARLIER run, which the re-run
+                    # then removed (own signature: a recorded finding, see known_findings.json)
+                    sig = "rerun-async-stale-poll"
+                violation(res, "unexpected-error", sig, f"{val['type']}: {val['msg'][:300]} ... {val['msg'][-900:]}; {ctx}")
                 # the root may be in an unknown state: stop the history here
                 break
             for k in keys:
